@@ -139,7 +139,7 @@ func main() {
 	}
 	// the same for states that are ALREADY active (an Add of active states still negotiates:
 	// self handlers XiXi), and CanRemove vs Remove with vetoing Exit handlers
-	for _, what := range []string{"re-add", "remove"} {
+	for _, what := range []string{"re-add", "remove", "remove-inactive"} {
 		for mask := 0; mask < 8; mask++ {
 			total++
 			schema := am.Schema{"T": {}, "X1": {}, "X2": {}, "X3": {}}
@@ -154,10 +154,21 @@ func main() {
 					neg[x+"Exit"] = func(e *am.Event) bool { return !veto }
 				}
 			}
+			if what == "remove-inactive" {
+				// removing states that are not active is still a negotiated transition on an idle
+				// machine: the global AnyEnter handler (and state-state handlers of the active T) may veto
+				anyVeto := mask&1 != 0
+				neg["AnyEnter"] = func(e *am.Event) bool { return !anyVeto || !m.Is1("T") }
+				neg["TT"] = func(e *am.Event) bool { return mask&2 == 0 }
+			}
 			if _, err := m.HandlersBindMaps(neg, nil); err != nil {
 				panic(err)
 			}
-			m.Add(xs, nil)
+			if what == "remove-inactive" {
+				m.Add1("T", nil)
+			} else {
+				m.Add(xs, nil)
+			}
 			before := fmt.Sprint(m.Time(nil), m.QueueTick())
 			var can, res am.Result
 			if what == "re-add" {
